@@ -225,7 +225,15 @@ Open Scope Z_scope.
 def coq_eval_cases(pid, corr_module, terms, tag='run', per_file=48, timeout=900, extra_imports=''):
     """terms: list of Coq terms of type <corr_module>.case.  Returns (model_bad, spec_bad, errors):
     lists of indices into terms."""
-    wd = os.path.join(WORK, pid, tag)
+    # one directory per invocation: concurrent checks of one property (seed runs, builders) must not delete each
+    # other's case files; stale directories of dead processes are swept here
+    base = os.path.join(WORK, pid)
+    os.makedirs(base, exist_ok=True)
+    for d in os.listdir(base):
+        m = re.match(r'.*-p(\d+)$', d)
+        if d == tag or (m and not os.path.exists('/proc/' + m.group(1))):
+            shutil.rmtree(os.path.join(base, d), ignore_errors=True)
+    wd = os.path.join(base, '%s-p%d' % (tag, os.getpid()))
     shutil.rmtree(wd, ignore_errors=True)
     os.makedirs(wd)
     files = []
@@ -286,8 +294,8 @@ def observe_all(pid, cases, timeout=3000):
     shards = [cases[i::n] for i in range(n)]
     procs = []
     for i, sh_cases in enumerate(shards):
-        inp = os.path.join(wd, 'impl_in_%d.json' % i)
-        outp = os.path.join(wd, 'impl_out_%d.json' % i)
+        inp = os.path.join(wd, 'impl_in_%d_%d.json' % (os.getpid(), i))
+        outp = os.path.join(wd, 'impl_out_%d_%d.json' % (os.getpid(), i))
         json.dump(sh_cases, open(inp, 'w'))
         if os.path.exists(outp):
             os.remove(outp)
@@ -306,8 +314,14 @@ def observe_all(pid, cases, timeout=3000):
             err = b'timeout'
         if os.path.exists(outp):
             res.append(json.load(open(outp)))
+            os.remove(outp)
         else:
             res.append([{'__harness_error__': 'impl subprocess died: ' + err.decode('utf8', 'replace')[-300:]}] * k)
+    for i in range(n):
+        try:
+            os.remove(os.path.join(wd, 'impl_in_%d_%d.json' % (os.getpid(), i)))
+        except OSError:
+            pass
     out = [None] * len(cases)
     for i in range(n):
         for j, o in enumerate(res[i]):
